@@ -110,6 +110,12 @@ fn plan_c01(thorough: bool) -> Plan {
         &a_ovf,
         &mk_case("ovf", vec!["seed:0", "CL0:0-1"], &cfg, "values", false),
     ));
+    // (c2) two large overflow values released in one commit, then re-allocation from the free list
+    let a_ovf2 = acts(&[("d", None), ("w", Some(70000)), ("w", Some(1)), ("w", Some(61381))]);
+    cases.extend(enum_commit_histories(3, 3, if thorough { 4 } else { 3 }, &a_ovf2, &mk_case("ovf2", vec!["seed:0,1,2"], &cfg, "values", false)));
+    // (c3) the boundary between prefix-compressed and uncompressed separators in a branch node
+    let a_mixed = acts(&[("w", Some(1300)), ("d", None), ("w", Some(1))]);
+    cases.extend(enum_commit_histories(2, 8, 2, &a_mixed, &mk_case("mixed2", vec!["seed:300,698,699,700,701,702,730,759"], &cfg, "values", false)));
     // (d) the same with a reopen inserted at every position (control symbol), reduced alphabet
     let base = enum_commit_histories(2, 4, 2, &a_small, &mk_case("leaf", vec!["seed:0,1,4,5"], &cfg, "values", false));
     cases.extend(with_control_everywhere(&base, &json!({"reopen": {}})));
@@ -120,7 +126,7 @@ fn plan_c01(thorough: bool) -> Plan {
     sort_by_bound(&mut cases);
     let mut p = Plan::new(
         cases,
-        "histx: every history of D commits whose batches deviate from the empty batch in at most B key actions (bound = number of deviations), over colliding key universes, from seed states {empty, leaf(6x1300B), branch(600 keys sharing 30 bytes), bulk(1500 keys), ovf(5MiB value)}; action alphabet = read, delete, read-then-delete, write of sizes {0,1,1332,1333,5000,61380,61381,70000}, read-then-write; reopen inserted at every position for a sub-family; after every commit Nomt::read and Session::read of every universe key are compared with a BTreeMap model. Non-trivial = at least one write was committed; distinct = distinct (case, final-state digest).",
+        "histx: every history of D commits whose batches deviate from the empty batch in at most B key actions (bound = number of deviations), over colliding key universes, from seed states {empty, leaf(6x1300B), branch(600 keys sharing 30 bytes), bulk(1500 keys), ovf(5MiB value), ovf2(two 70000-byte and one 61381-byte value), mixed2(700 clustered + 60 scattered keys: a branch node with compressed and uncompressed separators)}; action alphabet = read, delete, read-then-delete, write of sizes {0,1,1332,1333,5000,61380,61381,70000}, read-then-write; reopen inserted at every position for a sub-family; after every commit Nomt::read and Session::read of every universe key are compared with a BTreeMap model. Non-trivial = at least one write was committed; distinct = distinct (case, final-state digest).",
     );
     p.budget_s = if thorough { 1500 } else { 40 };
     p.assumptions = vec![
@@ -191,7 +197,7 @@ fn structural_family(thorough: bool, buckets: &[u32]) -> Vec<Value> {
     for &bk in buckets {
         let mut cfg = cfg_small();
         cfg.buckets = bk;
-        let a_small = acts(&[("w", Some(1)), ("w", Some(1333)), ("d", None), ("w", Some(70000)), ("w", Some(1300))]);
+        let a_small = acts(&[("w", Some(1)), ("w", Some(1333)), ("d", None), ("w", Some(70000)), ("w", Some(1300)), ("w", Some(61381)), ("w", Some(65000))]);
         cases.extend(enum_commit_histories(if thorough { 3 } else { 2 }, 4, if thorough { 3 } else { 2 }, &a_small, &mk_case("empty", vec!["U4"], &cfg, "noproof", false)));
         let a_seed = acts(&[("w", Some(1300)), ("w", Some(1)), ("d", None), ("w", Some(70000))]);
         cases.extend(enum_commit_histories(2, 6, 2, &a_seed, &mk_case("leaf", vec!["seed:0,2,3,5", "CL0:0-2"], &cfg, "noproof", false)));
@@ -204,6 +210,10 @@ fn structural_family(thorough: bool, buckets: &[u32]) -> Vec<Value> {
             }
         }
         if bk >= 1024 {
+            let a_ovf2 = acts(&[("d", None), ("w", Some(70000)), ("w", Some(1))]);
+            cases.extend(enum_commit_histories(2, 3, 3, &a_ovf2, &mk_case("ovf2", vec!["seed:0,1,2"], &cfg, "noproof", false)));
+            let a_mixed = acts(&[("w", Some(1300)), ("d", None)]);
+            cases.extend(enum_commit_histories(2, 8, 2, &a_mixed, &mk_case("mixed2", vec!["seed:300,698,699,700,701,702,730,759"], &cfg, "noproof", false)));
             let a_br = acts(&[("w", Some(1300)), ("d", None), ("w", Some(1))]);
             cases.extend(enum_commit_histories(2, 6, 2, &a_br, &mk_case("branch", vec!["seed:0,1,299,300,598,599"], &cfg, "noproof", false)));
             cases.extend(enum_commit_histories(2, 4, 2, &a_br, &mk_case("bulk", vec!["seed:0,700,1499", "CL0:0-1"], &cfg, "noproof", false)));
